@@ -149,6 +149,17 @@ def variant_files(v):
         f['../tc.bfg'] = ("environ['CFLAGS'] = environ.get('CFLAGS', '') + "
                           "' -DTC'\n"
                           "environ['LDFLAGS'] = '-Ltc'\n")
+    elif v == 'custom':
+        # one search with a filter function of the script's own (which no
+        # cache can replay) next to a plain, cacheable one
+        f['build.bfg'] = ("project('p')\n"
+                          "def no_tests(path):\n"
+                          "    if path.basename().startswith('test_'):\n"
+                          "        return FindResult.exclude\n"
+                          "    return FindResult.include\n"
+                          "hdrs = find_files('include/*.h')\n"
+                          "executable('prog', ['main.c'] + find_files("
+                          "'lib/*.c', filter=no_tests))\n")
     elif v == 'missingbase':
         f['build.bfg'] = ("project('p')\n"
                           "executable('prog', ['main.c'] + "
@@ -325,7 +336,7 @@ def main(argv):
                 ['mkdir_sub', 'add_in_sub', 'rmdir_sub', 'add_match'],
                 ['mkdir_sub', 'add_in_sub', 'rename_sub', 'add_in_sub']]
     variants = ['find', 'findrec', 'findrec2', 'hdrdir', 'sub', 'pkg',
-                'missingbase', 'toolchain']
+                'missingbase', 'toolchain', 'custom']
     for v in variants:
         for b in (('make', 'ninja') if not ck.quick else ('make',)):
             for d in directed:
